@@ -87,6 +87,7 @@ pub fn trigger_holds(trigger: &str, sc: &Scenario) -> bool {
                                 }
                                 *r
                             }
+                            UnOp::RepartBy(r, _) => *r,
                             UnOp::Shuffle | UnOp::Gb(..) | UnOp::Broadcast | UnOp::Win(..) | UnOp::Extra(ExtraOp::KeyedChain(..)) | UnOp::Extra(ExtraOp::UniqueKeys) => Repl::Unlimited,
                             UnOp::Gl(..) | UnOp::WinAll(..) => Repl::One,
                             _ => from,
@@ -154,6 +155,7 @@ fn iterate_repartitions(steps: &[Step]) -> bool {
                             | Step::Un(_, UnOp::Gb(..))
                             | Step::Un(_, UnOp::Gl(..))
                             | Step::Un(_, UnOp::Repl(_))
+                            | Step::Un(_, UnOp::RepartBy(..))
                             | Step::Un(_, UnOp::Win(..))
                             | Step::Bin(..)
                             | Step::Loop(..)
